@@ -23,6 +23,14 @@ Theorem C01_run_refines :
 Proof. exact run_refines_init. Qed.
 Print Assumptions C01_run_refines.
 
+(* the same with the other request kinds in between: publishes, publish streams, subscriptions of both kinds,
+   locks and dumps change nothing a read can see *)
+Theorem C01_run_refines_any :
+  forall ops, Forall any_req ops -> Forall import_ok ops -> no_crash (run init ops) ->
+    spec_trace (abs init) ops (run init ops).
+Proof. intros ops H1 H2 H3. exact (run_refines_any ops init Inv_init eq_refl H1 H2 H3). Qed.
+Print Assumptions C01_run_refines_any.
+
 (* the cached entry count is the number of stored values after ANY history of requests of any kind
    (sessions, subscriptions and locks included), and that is the number of keys holding a value *)
 Theorem C01_len_is_count :
